@@ -11,6 +11,9 @@
 #include "expr_io.h"
 #include <typeinfo>
 #include <sys/resource.h>
+#include <sys/wait.h>
+#include <unistd.h>
+#include <signal.h>
 #include <new>
 using namespace ibex; using namespace vh; using namespace std;
 
@@ -80,10 +83,32 @@ int main(int argc, char** argv) {
   string wl = argc > 1 ? argv[1] : "c08";
   uint64_t seed = argc > 2 ? strtoull(argv[2], 0, 10) : 1;
   long n = argc > 3 ? atol(argv[3]) : 200;
-  Rng r(seed * 86028121 + 9);
+  Rng r0(seed * 86028121 + 9);
   string cur;
+  // the symbolic workloads run each iteration in a forked child with a CPU-time limit: the polynomial expansion of the
+  // simplification levels 2-3 is documented to blow up (time or memory) on some expressions; such a case is reported
+  // as a resource limit (no claim), a crash of the library as a failure
+  bool forked = (wl == "c11" || wl == "c12");
   for (long it = 0; it < n; it++) {
     cur = "-";
+    Rng r(r0.next() ^ (uint64_t)it * 0x9E3779B97F4A7C15ull);     // one stream per iteration (the child's draws are not seen by the parent)
+    if (getenv("H_SYM_ONLY") && atol(getenv("H_SYM_ONLY")) != it) continue;     // (debugging: a single iteration, in this process)
+    if (forked && !getenv("H_SYM_ONLY")) {
+      fflush(stdout);
+      pid_t pid = fork();
+      if (pid > 0) {
+        int st = 0; waitpid(pid, &st, 0);
+        if (WIFSIGNALED(st)) {
+          if (WTERMSIG(st) == SIGXCPU || WTERMSIG(st) == SIGKILL || WTERMSIG(st) == SIGALRM) EMIT("resourcelimit %s cpu-time it=%ld => 0\n", wl.c_str(), it);
+          else EMIT("harnesserror %s crash-signal-%d it=%ld => 0\n", wl.c_str(), WTERMSIG(st), it);
+        } else emitted += WEXITSTATUS(st) == 0 ? 0 : 0;
+        continue;
+      }
+      if (pid == 0) { struct rlimit rl; rl.rlim_cur = 25; rl.rlim_max = 30; setrlimit(RLIMIT_CPU, &rl);
+                      static char* big = 0; if (!big) big = (char*)malloc(1 << 24); setvbuf(stdout, big, _IOFBF, 1 << 24); }   // nothing is written before the final flush: a crash leaves no partial line
+      if (pid < 0) forked = false;   // (fork failed: go on in this process)
+    }
+    do {     // (a `continue` in the body leaves this block, not the iteration: the child must reach its _exit)
     try {
       if (wl == "c08") {
         GenCfg cfg; cfg.differentiable = r.coin(75); cfg.allow_vec = r.coin(60); cfg.allow_apply = r.coin(40); cfg.max_depth = r.range(1, 4);
@@ -198,6 +223,8 @@ int main(int argc, char** argv) {
     } catch (ExprDiffException& e) { EMIT("diffunsupported x => 0\n"); }
       catch (std::bad_alloc&) { EMIT("resourcelimit %s bad_alloc %s => 0\n", wl.c_str(), cur.c_str()); }   // (polynomial expansion of simplification levels 2-3: documented blow-up)
       catch (std::exception& e) { EMIT("harnesserror %s %s %s => 0\n", wl.c_str(), typeid(e).name(), cur.c_str()); }
+    } while (0);
+    if (forked && !getenv("H_SYM_ONLY")) { fflush(stdout); _exit(0); }
   }
   fprintf(stderr, "emitted %ld\n", emitted);
   return 0;
